@@ -9,7 +9,7 @@ Rips barcode" is NOT decided here.
 """
 import os
 
-from vp.extract import Fn
+from vp.extract import Fn, REPO
 from vp.driver import Unit, Run, VERIF, sh
 
 LEVEL = "proof"
@@ -1069,7 +1069,7 @@ def _bin(name, extra=()):
     out = os.path.join(VERIF, "build", "replay_" + name)
     if out not in _built:
         os.makedirs(os.path.dirname(out), exist_ok=True)
-        inc = ["-I/repo/src/Ripser/include", "-I/repo/src/common/include"]
+        inc = ["-I" + REPO + "/src/Ripser/include", "-I" + REPO + "/src/common/include"]
         rc, o, e, s = sh(["g++", "-std=c++17", "-O1", "-w"] + list(extra) + inc + [src, "-o", out], 600)
         if rc != 0:
             raise RuntimeError("replay build failed: " + (o + e)[-1500:])
@@ -1142,7 +1142,7 @@ def native(tier, seed, bdir, only=None):
         import json
         os.makedirs(bdir, exist_ok=True)
         exe = os.path.join(bdir, "ripser_sweep")
-        inc = ["-I/repo/src/Ripser/include", "-I/repo/src/common/include", "-I/repo/src/Rips_complex/include", "-I/repo/src/Simplex_tree/include", "-I/repo/src/Persistent_cohomology/include"]
+        inc = ["-I" + REPO + "/src/Ripser/include", "-I" + REPO + "/src/common/include", "-I" + REPO + "/src/Rips_complex/include", "-I" + REPO + "/src/Simplex_tree/include", "-I" + REPO + "/src/Persistent_cohomology/include"]
         rc, o, e, s = sh(["g++", "-std=c++17", "-O1", "-w", "-DNDEBUG"] + inc + [os.path.join(VERIF, "native", "ripser_sweep.cpp"), "-o", exe, "-ltbb"], 1200, mem_kb=16 * 1024 * 1024)
         if rc != 0:
             out.append({"unit": uid, "status": "error", "notes": (o + e)[-1500:], "cases": 0, "failures": []})
@@ -1169,7 +1169,7 @@ def native(tier, seed, bdir, only=None):
         import json
         os.makedirs(bdir, exist_ok=True)
         exe = os.path.join(bdir, "ripser_coeff_" + tag)
-        rc, o, e, s = sh(["g++", "-std=c++17", "-O1", "-w", "-DNDEBUG"] + defs + ["-I/repo/src/Ripser/include", "-I/repo/src/common/include",
+        rc, o, e, s = sh(["g++", "-std=c++17", "-O1", "-w", "-DNDEBUG"] + defs + ["-I" + REPO + "/src/Ripser/include", "-I" + REPO + "/src/common/include",
                           os.path.join(VERIF, "native", "ripser_coeff.cpp"), "-o", exe], 600)
         if rc != 0:
             out.append({"unit": uid, "status": "error", "notes": (o + e)[-1500:], "cases": 0, "failures": []})
